@@ -278,7 +278,12 @@ Chain(args, root, at, same) ==
   IF args = <<>> THEN [k |-> "ok", v |-> AtVal(root, at), isAt |-> same, root |-> root, at |-> at]
   ELSE LET r == Eval(args[1], root, at) IN
        IF r.k # "ok" THEN [k |-> r.k]
-       ELSE Chain(Tail(args), r.root, IF r.isAt THEN r.at ELSE [mode |-> "det", v |-> r.v, al |-> r.at.al], same /\ r.isAt)
+       \* the next step's @ is this step's return value; a container LITERAL step yields a fresh value that shares nothing
+       \* ("loc": it can be mutated through @ with value semantics), any other value may share structure ("det")
+       ELSE Chain(Tail(args), r.root,
+                  IF r.isAt THEN r.at
+                  ELSE [mode |-> IF args[1].t \in {"arr", "obj"} THEN "loc" ELSE "det", v |-> r.v, al |-> r.at.al],
+                  same /\ r.isAt)
 
 \* cond: "All arguments must be array of two elements. The first element must evaluate to a boolean and the second can be
 \* any value. The value of the first true first argument is returned. If none match nil is returned."
@@ -392,8 +397,8 @@ Eval(n, root, at) ==
            \* it is iterating over: "any").
            [] f = "each" ->
                 IF Len(n.a) \notin {2, 3} \/ n.a[2].t # "call" THEN AnyR
-                ELSE IF \E j \in 1..Len(MutCalls(n.a[2])) : ~(MutCalls(n.a[2])[j].a # <<>> /\ MutCalls(n.a[2])[j].a[1].t = "path" /\ MutCalls(n.a[2])[j].a[1].at)
-                     THEN AnyR
+                ELSE IF n.a[1].t # "arr" /\ \E j \in 1..Len(MutCalls(n.a[2])) : ~(MutCalls(n.a[2])[j].a # <<>> /\ MutCalls(n.a[2])[j].a[1].t = "path" /\ MutCalls(n.a[2])[j].a[1].at)
+                     THEN AnyR          \* (a literal list cannot be reached by a mutation of the root)
                 ELSE LET l == Eval(n.a[1], root, at) IN
                 IF l.k # "ok" THEN [k |-> l.k]
                 ELSE IF l.v.t # "arr" THEN AnyR
